@@ -89,6 +89,8 @@ def random_case(rng):
             # drop the newest cloned Counter handle (model: DropClone — touches nothing)
             t = "h"
             clones -= 1
+        elif rng.random() < 0.06:
+            t = "w"      # the newest handle and a live guard are formatted with {:?}: nothing changes
         elif rng.random() < 0.03:
             t = "d%d" % rng.randint(0, len(alive) + 1)
         else:
@@ -135,7 +137,7 @@ def to_coq17(case, model):
     cap, ops = case.split("|", 1)
 
     def op(t):
-        return {"a": "Acquire", "k": "Clone", "h": "DropClone"}.get(t[0]) or {"d": "DropGuard", "u": "DropGuard", "v": "Available"}[t[0]] + " " + t[1:]
+        return {"a": "Acquire", "k": "Clone", "h": "DropClone", "w": "DropClone"}.get(t[0]) or {"d": "DropGuard", "u": "DropGuard", "v": "Available"}[t[0]] + " " + t[1:]
 
     def ob(t):
         a, tot = t.split("/")
